@@ -173,7 +173,7 @@ func (x *Exec) vrtCall(g *G, fn *ssa.Function, args []Value) Value {
 		}
 		others := false
 		for _, o := range x.gs {
-			if o != g && o.runnable() {
+			if o != g && o.runnable() && !o.stalled {
 				others = true
 			}
 		}
@@ -183,7 +183,7 @@ func (x *Exec) vrtCall(g *G, fn *ssa.Function, args []Value) Value {
 		x.quiesced[g] = true
 		g.wcond = func() bool {
 			for _, o := range x.gs {
-				if o != g && o.runnable() {
+				if o != g && o.runnable() && !o.stalled {
 					return false
 				}
 			}
@@ -200,7 +200,7 @@ func (x *Exec) vrtCall(g *G, fn *ssa.Function, args []Value) Value {
 		// after every block until nothing more is due.
 		othersRunnable := func() bool {
 			for _, o := range x.gs {
-				if o != g && o.runnable() {
+				if o != g && o.runnable() && !o.stalled {
 					return true
 				}
 			}
@@ -274,6 +274,12 @@ func (x *Exec) vrtCall(g *G, fn *ssa.Function, args []Value) Value {
 		return MkBV(64, uint64(int64(n-x.gMark)))
 	case "vDaemon":
 		g.daemon = true
+		return nil
+	case "vStallAfter":
+		k := x.concInt(args[0], "stall point")
+		g.stallAfter = k
+		g.syncOps = 0
+		g.stalled = k == 0
 		return nil
 	case "vSetPreempt":
 		x.preemptBudget = x.concInt(args[0], "preempt budget")
